@@ -309,6 +309,13 @@ def sec_race(rec, patches=None):
     c10_race.run_section(rec, patches=patches)
 
 
+def sec_task_purity(rec, n_deg=3, patches=None):
+    """(v) delayed tasks sharing a random generator: MockLoader's simulated tilt series under every execution order of its projection tasks"""
+    from . import c10_tasks
+
+    c10_tasks.run_section(rec, n_deg=n_deg, patches=patches)
+
+
 def sec_binning_chunks(rec, patches=None):
     """binning a dask tomogram does not depend on how it is chunked (executed by C15's real-dask section)"""
     from .c15 import sec_blocksum_dask
@@ -318,10 +325,11 @@ def sec_binning_chunks(rec, patches=None):
 
 def sections(tier):
     S = [("multi", "checks.c10", "sec_multi", {}), ("loading", "checks.c10", "sec_loading", {}), ("shared-state-race", "checks.c10", "sec_race", {}),
-         ("binning-chunks", "checks.c10", "sec_binning_chunks", {}),
+         ("binning-chunks", "checks.c10", "sec_binning_chunks", {}), ("task-purity-mock", "checks.c10", "sec_task_purity", {"n_deg": 3}),
          ("chunk-order-2x1x1", "checks.c10", "sec_chunk_order", {"chunks": ((30, 30), (60,), (60,)), "n": 3}),
          ("chunk-order-3x1x1", "checks.c10", "sec_chunk_order", {"chunks": ((20, 20, 20), (60,), (60,)), "n": 3})]
     if not quick(tier):
+        S.append(("task-purity-mock-4", "checks.c10", "sec_task_purity", {"n_deg": 4}))
         S.append(("chunk-order-3x2x1", "checks.c10", "sec_chunk_order", {"chunks": ((20, 20, 20), (30, 30), (60,)), "n": 3}))
         S.append(("chunk-order-2x1x2-n4", "checks.c10", "sec_chunk_order", {"chunks": ((30, 30), (60,), (25, 35)), "n": 4}))
     for kind in ("zncc", "ncc", "pcc", "fsc"):
@@ -362,7 +370,13 @@ _MEMO_ATOMIC = """        cached = self.__dict__.get("_wedge")
         return backend.asarray(mask)
 """
 _LD = "acryo.loader._loader"
+_MK = "acryo.loader._mock"
 MUTANTS = [
+    ("task-purity:noise-drawn-inside-the-projection-tasks-from-a-shared-generator (seeded change C10_6)", "checks.c10", "sec_task_purity", {"n_deg": 3},
+     {_MK: [("                radon_single(img, mtx, order=3, output_shape=output_shape),\n", "                _noisy(radon_single(img, mtx, order=3, output_shape=output_shape), _rng, noise),\n"),
+            ("    matrices, output_shape = normalize_radon_input(img.shape, central_axis, degrees)\n", "    matrices, output_shape = normalize_radon_input(img.shape, central_axis, degrees)\n    _rng = np.random.default_rng(seed=seed)\n"),
+            ("    sino += rng.normal(0, noise, sino.shape).astype(np.float32)\n", ""),
+            ("# Radon transform\n", "@delayed\ndef _noisy(proj, rng, noise):\n    return proj + rng.normal(0, noise, proj.shape).astype(np.float32)\n\n")]}),
     ("chunk-order:tasks-sorted-by-first-axis-chunk-and-not-put-back (seeded change C10_5)", "checks.c10", "sec_chunk_order", {"chunks": ((20, 20, 20), (60,), (60,)), "n": 3},
      {_LD: [("        for i in range(self.molecules.count()):\n            try:\n                subvol, mtx = _prep(",
              "        _o = list(range(self.molecules.count()))\n        if getattr(image, 'npartitions', 1) > 1:\n            _o = np.argsort(np.searchsorted(np.cumsum(image.chunks[0])[:-1], self.molecules.pos[:, 0] / scale, side='right'), kind='stable').tolist()\n        for i in _o:\n            try:\n                subvol, mtx = _prep(")]}),
@@ -392,6 +406,7 @@ def run(tier, procs=None, only=None):
                     "steps over a shared dict model; the schedule is a z3 variable; no thread may raise and every thread must obtain the stored (template, mask).",
         bounds={"declared shapes": "box 6^3, max_shifts symbolic in [0, 6) on one axis (others 1.0, 0.5), upsample in " + ("{1,2}" if quick(tier) else "{1,2,3,5}"),
                 "chunk-order": "60^3 tomogram split into 2 or 3 chunks on the first axis (thorough: also 3x2x1 and 2x1x2 with 4 molecules), 3 molecules at symbolic positions",
+                "task-purity": "simulate_noise on a 3x3x2 opaque image, 3 tilt angles (thorough: 4), all evaluation orders of the sibling projection tasks",
                 "cache": "2 and 3 threads, one get() each after construction, context switch allowed between any two bytecodes"},
         trusted_base=TRUSTED + ["HybridNdi (map_coordinates on a symbolic mesh -> array of the mesh's shape)", "real numpy/scipy for the concrete landscape",
                                 "CPython dict semantics as modelled in checks/c10_cache.py (iteration raises RuntimeError if the dict changed size)"],
@@ -404,6 +419,13 @@ def run(tier, procs=None, only=None):
 
 def replay(data):
     key = data.get("key", "")
+    if "task-purity" in key:
+        from .c10_tasks import replay_mock_noise
+
+        ok, detail = replay_mock_noise(data.get("cex") or {})
+        print("replay:", detail)
+        print("REPRODUCED" if ok else "not reproduced")
+        return 1 if ok else 0
     if "chunk-order" in key:
         ok, detail = replay_chunk_order((18, 24, 24))(data.get("cex") or {})
         print("replay:", detail)
